@@ -303,6 +303,12 @@ func runC15(c *fw.Case) {
 		m.algo = other.algo
 		m.sig = other.sign(c15Payload(m.addr, m.refID, m.link))
 		recs = append(recs, m)
+		// the address is part of the signed text as it was written: a record kept, signed and
+		// asked for under the upper-case spelling of an address is a consistent record
+		m = base("address-in-upper-case-spelling")
+		m.addr = strings.ToUpper(m.addr)
+		m.sig = signer.sign(c15Payload(m.addr, m.refID, m.link))
+		recs = append(recs, m)
 		m = base("signed-by-other-key-with-matching-cert")
 		m.cert = other.pem
 		m.algo = other.algo
@@ -344,7 +350,7 @@ func runC15(c *fw.Case) {
 		checkLinks("after storing record " + r.label)
 		// expected validity from the independent verifier over what is stored
 		want := r.storeLink && r.storeSig && independentVerify(c15Payload(r.addr, r.refID, r.link), r.sig, r.algo, r.cert)
-		if r.label == "valid" || r.label == "signed-by-other-key-with-matching-cert" || r.label == "link-ending-with-separator" || r.label == "empty-link" || r.label == "link-with-inner-separators" || r.label == "long-link" {
+		if r.label == "valid" || r.label == "signed-by-other-key-with-matching-cert" || r.label == "link-ending-with-separator" || r.label == "empty-link" || r.label == "link-with-inner-separators" || r.label == "long-link" || r.label == "address-in-upper-case-spelling" {
 			if !want {
 				c.Inconclusive("harness produced an invalid 'valid' record")
 				return
